@@ -10,7 +10,7 @@ from vv.props.c02 import rows_equal
 RULE = ("The scenario generators of C01/C02 (every estimator family whose code path contains numba kernels, with their edge-biased sizes: "
         "length-0/1 sequences and strings, radius larger than the sequence, epsilon pruning cells before an EM iteration, "
         "coo_initial_memory='1k' with many events, fixed dictionaries, one-row / one-column matrices, window width equal to the sequence "
-        "length), the distance functions (C18 cases), transport_plan (small C07 cases) and the LOT kernels called directly (exact / dense / Sinkhorn internals on C08-style inputs). Each scenario (fit_transform on X, transform on "
+        "length), the distance functions (C18 cases, plus sparse vectors without stored entries on either or both sides for the sparse functions), transport_plan (small C07 cases) and the LOT kernels called directly (exact / dense / Sinkhorn internals on C08-style inputs). Each scenario (fit_transform on X, transform on "
         "X') is executed by three persistent worker interpreters: normal JIT, NUMBA_BOUNDSCHECK=1 and NUMBA_DISABLE_JIT=1. Violation: "
         "IndexError / UnboundLocalError / NameError in a checked mode when the normal mode returned; a checked-mode result that differs "
         "from the normal result (exact for integer outputs, rtol 1e-5 / atol 1e-7 otherwise); a crash of a worker. Exceptions raised "
@@ -36,6 +36,11 @@ def run_scenario(payload):
         y = x * spec["c"] if spec["y"] is None else np.array(spec["y"], dtype=np.float64)
         i1, d1 = c18.sparse_of(np, x, spec["f32"], spec["explicit_zeros"])
         i2, d2 = c18.sparse_of(np, y, spec["f32"], spec["explicit_zeros"])
+        empty = spec.get("empty")
+        if empty in ("x", "both"):
+            i1, d1 = i1[:0].copy(), d1[:0].copy()
+        if empty in ("y", "both"):
+            i2, d2 = i2[:0].copy(), d2[:0].copy()
         fns = {"hellinger": lambda: d.hellinger(x, y), "tv": lambda: d.total_variation(x, y), "k1": lambda: d.kantorovich1d(x, y, 1),
                "k2": lambda: d.kantorovich1d(x, y, 2), "js": lambda: d.jensen_shannon_divergence(x, y), "kl": lambda: d.symmetric_kl_divergence(x, y),
                "s_hell": lambda: d.sparse_hellinger(i1, d1, i2, d2), "s_tv": lambda: d.sparse_total_variation(i1, d1, i2, d2),
@@ -43,6 +48,9 @@ def run_scenario(payload):
                "sum": lambda: [np.asarray(a, dtype=np.float64) for a in d.sparse_sum(i1, d1, i2, d2)],
                "diff": lambda: [np.asarray(a, dtype=np.float64) for a in d.sparse_diff(i1, d1, i2, d2)],
                "mul": lambda: [np.asarray(a, dtype=np.float64) for a in d.sparse_mul(i1, d1, i2, d2)]}
+        if empty:
+            # sparse vectors without stored entries (all-zero rows of a sparse matrix): only the sparse functions accept them
+            fns = {k: f for k, f in fns.items() if k.startswith("s_") or k in ("sum", "diff", "mul")}
         for k, f in fns.items():
             try:
                 v = f()
@@ -184,7 +192,13 @@ def make_check(name):
 def strategy_for(name):
     if name == "distances":
         from vv.props import c18
-        return lambda tier: c18.cases("quick")
+
+        @st.composite
+        def with_empties(draw, tier):
+            c = draw(c18.cases("quick"))
+            c["empty"] = draw(st.sampled_from([None, None, None, None, "x", "y", "both"]))
+            return c
+        return with_empties
     if name == "transport_plan":
         from vv.props import c07
 
